@@ -38,7 +38,7 @@ EXPLANATION = (
 )
 BOUNDS = [
     "2 rows in one batch (faulted row j>>q with symbolic compositions, C count 0..1, H count 0..2, charges 0; neighbour row w>>x a fixed MCS-solvable reaction), both orders",
-    "fault pattern of the faulted row: each of its 3 search jobs in {ok, timeout, raise, uncertain}, its fragment-analysis job in {ok, timeout, raise}, merge in {ok, raise}; zombie completion at one of 5 boundaries (before/after get_largest_condition, before/after find_graph_dict, before MCSBasedMethod.run); quick = one faulted job (or all three search jobs alike) and 1-2 boundaries; thorough = up to two faulted jobs (or all three search jobs alike) and all 5 boundaries",
+    "fault pattern of the faulted row: each of its 3 search jobs in {ok, timeout, raise, uncertain, partial (a None hole in the result list)}, its fragment-analysis job in {ok, timeout, raise}, merge in {ok, raise}; zombie completion at one of 5 boundaries (before/after get_largest_condition, before/after find_graph_dict, before MCSBasedMethod.run); quick = one faulted job (or all three search jobs alike) and 1-2 boundaries; thorough = up to two faulted jobs (or all three search jobs alike) and all 5 boundaries",
 ]
 STUBS = pc.STUBS_PIPE + [
     "multiprocessing.pool.ThreadPool -> shim: get(timeout) returns the job's result or raises TimeoutError; a timed-out job completes at a later call boundary; terminate() does not stop it (as in CPython)",
@@ -49,7 +49,7 @@ STUBS = pc.STUBS_PIPE + [
 OUTSIDE = pc.OUTSIDE_PIPE + ["real pre-emption inside a call, joblib worker processes (a zombie in a worker writes to a discarded copy; the in-process case is the harder one), RDKit's own 1 s FindMCS budget"]
 ASSUMPTIONS = STUBS
 
-JOB_OK, JOB_TIMEOUT, JOB_RAISE, JOB_UNCERTAIN = "ok", "timeout", "raise", "uncertain"
+JOB_OK, JOB_TIMEOUT, JOB_RAISE, JOB_UNCERTAIN, JOB_PARTIAL = "ok", "timeout", "raise", "uncertain", "partial"
 BOUNDARIES = ("pre-select", "post-select", "pre-graph", "post-graph", "pre-impute")
 
 _ORIG = {}
@@ -61,11 +61,17 @@ class _TimeoutError(Exception):
 
 
 class _Async:
-    def __init__(self, f, args, kwargs, mode):
-        self.f, self.args, self.kwargs, self.mode = f, args, kwargs, mode
+    def __init__(self, pool, f, args, kwargs, mode):
+        self.pool, self.f, self.args, self.kwargs, self.mode = pool, f, args, kwargs, mode
 
     def get(self, timeout=None):
+        if self.pool.pending:
+            # the pool's single thread is still busy with an abandoned job: this job cannot start in time
+            self.pool.pending.append(self)
+            _STATE["zombies"].append(self)
+            raise _TimeoutError()
         if self.mode == JOB_TIMEOUT:
+            self.pool.pending.append(self)
             _STATE["zombies"].append(self)
             raise _TimeoutError()
         return self.f(*self.args, **self.kwargs)
@@ -75,18 +81,23 @@ class _Async:
             self.f(*self.args, **self.kwargs)
         except Exception:
             pass  # an exception in an abandoned thread goes nowhere
+        if self in self.pool.pending:
+            self.pool.pending.remove(self)
 
 
 class _ThreadPool:
+    """One worker thread: a job that timed out keeps the thread busy (terminate() does not stop it), so a later
+    job submitted to the SAME pool object waits behind it.  The code under analysis creates a fresh pool per job."""
+
     def __init__(self, n=1):
-        pass
+        self.pending = []
 
     def apply_async(self, f, args=(), kwds=None):
         kwds = kwds or {}
         mode = JOB_OK
         if _STATE["faults_on"]:
             mode = _job_mode(f, args, kwds)
-        return _Async(f, args, kwds, JOB_TIMEOUT if mode == JOB_TIMEOUT else JOB_OK)
+        return _Async(self, f, args, kwds, JOB_TIMEOUT if mode == JOB_TIMEOUT else JOB_OK)
 
     def terminate(self):
         return None
@@ -150,16 +161,22 @@ class _Analyzer:
         reactant_mol_list = [_Mol(content)]
         if mode == JOB_UNCERTAIN:
             reactant_mol_list = []
+        if mode == JOB_PARTIAL:
+            mcs_list = [None]  # an internal failure of the iterative search leaves a hole in the result list
         return mcs_list, sorted_reactants, reactant_mol_list, None
 
 
 class _rdmolfiles:
     @staticmethod
     def MolToSmarts(m):
+        if m is None:
+            raise TypeError("MolToSmarts(NoneType): did not match C++ signature (stub)")
         return m.s
 
     @staticmethod
     def MolToSmiles(m):
+        if m is None:
+            raise TypeError("MolToSmiles(NoneType): did not match C++ signature (stub)")
         return m.s
 
     @staticmethod
@@ -367,7 +384,7 @@ def h_faults(jC: int, jH: int, qC: int, qH: int, jjC: int, jjH: int) -> bool:
 
 
 def _patterns(tier):
-    modes = (JOB_OK, JOB_TIMEOUT, JOB_RAISE, JOB_UNCERTAIN)
+    modes = (JOB_OK, JOB_TIMEOUT, JOB_RAISE, JOB_UNCERTAIN, JOB_PARTIAL)
     out = []
     for s in itertools.product(modes, repeat=3):
         for g in (JOB_OK, JOB_TIMEOUT, JOB_RAISE):
